@@ -1,78 +1,722 @@
-//! C20 probe (temporary)
+//! C20 — editor queries are total and agree with the typechecker.
+//!
+//! For every generated program variant (complete / truncated at every token boundary / one token
+//! deleted) and EVERY byte offset (0 ..= len+2, i.e. including the positions before the first and
+//! after the last byte):
+//!
+//! * correspondence: the result of the real position search (`gluon_completion::complete`:
+//!   match, enclosing matches, near matches) and of `SuggestionQuery{prefix_filter:false}.suggest`
+//!   against the Lean model `GluonModel.FindPos` run on the dumped span tree of the typed AST
+//!   (programs inside the modelled fragment);
+//! * property oracle, on the implementation alone: no query panics; the type `find` reports at
+//!   an identifier is the type stored in the typed AST for that occurrence; every name
+//!   returned by `suggest` is in scope at the offset (scope computed from the AST by `info.rs`).
 #[path = "c20/front.rs"]
 mod front;
+#[path = "c20/gen.rs"]
+mod gen;
+#[path = "c20/info.rs"]
+mod info;
 
-use gluon_base::pos::{BytePos, Span};
+use gluon::either::Either;
+use gluon_base::{
+    ast::{Expr, Pattern, SpannedExpr, SpannedPattern},
+    pos::{BytePos, Span},
+    symbol::Symbol,
+};
+use gluon_completion as completion;
+use gv::{quote, Args, Out};
+use std::cell::RefCell;
+use std::collections::HashMap;
 
-fn main() {
-    if std::env::var("C20_LOUD").is_err() { gv::quiet_panics(); }
-    let a: Vec<String> = std::env::args().collect();
-    if a.len() >= 3 && a[1] == "--scan" {
-        for f in &a[2..] {
-            let src = std::fs::read_to_string(f).unwrap();
-            let c = match gv::catch(|| front::check(&src)) {
-                Ok(Some(c)) => c,
-                Ok(None) => { println!("{}: no ast", f); continue; }
-                Err(p) => { println!("{}: front panic {}", f, p); continue; }
-            };
-            let expr = c.expr.expr();
-            let dbg = format!("{:?}", expr);
-            let ann = dbg.matches("Annotated(").count();
-            let span = Span::new(BytePos::from(1), BytePos::from(1 + src.len() as u32));
-            let mut panics = std::collections::BTreeMap::new();
-            for off in 0..=(src.len() as u32 + 2) {
-                let pos = BytePos::from(off);
-                if let Err(p) = gv::catch(|| { let _ = gluon_completion::find(&c.env, span, expr, pos); }) { *panics.entry(format!("find:{}", p)).or_insert(0u32) += 1; }
-                if let Err(p) = gv::catch(|| { let _ = gluon_completion::suggest(&c.env, span, expr, pos); }) { *panics.entry(format!("suggest:{}", p)).or_insert(0u32) += 1; }
-            }
-            println!("{}: len={} annotated={} perr={} terr={} panics={:?}", f, src.len(), ann, c.parse_errors, c.type_errors, panics);
+thread_local! {
+    static LAST_PANIC_LOC: RefCell<String> = RefCell::new(String::new());
+}
+
+fn install_hook() {
+    std::panic::set_hook(Box::new(|info| {
+        let loc = info
+            .location()
+            .map(|l| format!("{}:{}", l.file(), l.line()))
+            .unwrap_or_default();
+        LAST_PANIC_LOC.with(|c| *c.borrow_mut() = loc);
+    }));
+}
+
+fn last_loc() -> String {
+    LAST_PANIC_LOC.with(|c| c.borrow().clone())
+}
+
+// ---------------------------------------------------------------------------------------------
+// Dump of the typed AST as the model's span tree
+// ---------------------------------------------------------------------------------------------
+
+struct Dump {
+    src_span: Span<BytePos>,
+    ids: HashMap<Symbol, usize>,
+    names: Vec<String>,
+    /// first reason why the program is outside the modelled fragment
+    out: Option<&'static str>,
+    nodes: u32,
+}
+
+impl Dump {
+    fn id(&mut self, s: &Symbol) -> usize {
+        if let Some(i) = self.ids.get(s) {
+            return *i;
         }
-        return;
+        let i = self.names.len();
+        self.names.push(s.declared_name().to_string());
+        self.ids.insert(s.clone(), i);
+        i
     }
-    if a.len() >= 3 && a[1] == "--probe" {
-        let src = &a[2];
-        let c = match gv::catch(|| front::check(src)) {
-            Ok(Some(c)) => c,
-            Ok(None) => {
-                println!("no ast");
-                return;
+    fn fail(&mut self, why: &'static str) -> String {
+        if self.out.is_none() {
+            self.out = Some(why);
+        }
+        "?".into()
+    }
+    fn sp(s: Span<BytePos>) -> String {
+        format!("{} {}", s.start().0, s.end().0)
+    }
+
+    fn pat(&mut self, p: &SpannedPattern<'_, Symbol>) -> String {
+        self.nodes += 1;
+        match &p.value {
+            Pattern::Ident(id) => {
+                let i = self.id(&id.name);
+                format!("(pl {} {})", Self::sp(p.span), i)
             }
-            Err(p) => {
-                println!("front panic {}", p);
-                return;
+            Pattern::Literal(_) | Pattern::Error => format!("(pl {})", Self::sp(p.span)),
+            Pattern::Tuple { elems, .. } => {
+                let mut s = format!("(pt {}", Self::sp(p.span));
+                for e in &**elems {
+                    s.push(' ');
+                    s.push_str(&self.pat(e));
+                }
+                s.push(')');
+                s
+            }
+            Pattern::Constructor(id, args) => {
+                let mut s = format!("(pc {} {}", Self::sp(p.span), id.as_ref().len());
+                for e in &**args {
+                    s.push(' ');
+                    s.push_str(&self.pat(e));
+                }
+                s.push(')');
+                s
+            }
+            Pattern::As(id, q) => {
+                let i = self.id(&id.value);
+                let q = self.pat(q);
+                format!("(pa {} {} {})", Self::sp(p.span), i, q)
+            }
+            Pattern::Record { .. } => self.fail("record-pattern"),
+        }
+    }
+
+    fn list(&mut self, tag: &str, sp: Span<BytePos>, xs: &[&SpannedExpr<'_, Symbol>]) -> String {
+        let mut s = format!("({} {}", tag, Self::sp(sp));
+        for e in xs {
+            s.push(' ');
+            s.push_str(&self.expr(e));
+        }
+        s.push(')');
+        s
+    }
+
+    fn expr(&mut self, e: &SpannedExpr<'_, Symbol>) -> String {
+        self.nodes += 1;
+        // lib.rs:273 `is_macro_expanded`
+        if e.span.start().0 == 0 || !self.src_span.contains(e.span) {
+            return self.fail("macro-expanded-span");
+        }
+        let sp = Self::sp(e.span);
+        match &e.value {
+            Expr::Ident(_) | Expr::Literal(_) => format!("(L {})", sp),
+            Expr::Error(_) => format!("(E {})", sp),
+            Expr::App { func, args, .. } => {
+                let mut v: Vec<&SpannedExpr<'_, Symbol>> = vec![&**func];
+                v.extend(args.iter());
+                self.list("O", e.span, &v)
+            }
+            Expr::IfElse(a, b, c) => self.list("O", e.span, &[&**a, &**b, &**c]),
+            Expr::Array(a) => {
+                if a.exprs.is_empty() {
+                    format!("(Z {})", sp)
+                } else {
+                    self.list("O", e.span, &a.exprs.iter().collect::<Vec<_>>())
+                }
+            }
+            Expr::Tuple { elems, .. } => {
+                if elems.is_empty() {
+                    format!("(Z {})", sp)
+                } else {
+                    self.list("O", e.span, &elems.iter().collect::<Vec<_>>())
+                }
+            }
+            Expr::Block(xs) => {
+                if xs.is_empty() {
+                    format!("(Z {})", sp)
+                } else {
+                    self.list("O", e.span, &xs.iter().collect::<Vec<_>>())
+                }
+            }
+            Expr::Match(s, alts) => {
+                let s = self.expr(s);
+                let mut a = String::new();
+                for alt in &**alts {
+                    let p = self.pat(&alt.pattern);
+                    let x = self.expr(&alt.expr);
+                    a.push_str(&format!("({} {})", p, x));
+                }
+                format!("(M {} {} ({}))", sp, s, a)
+            }
+            Expr::Infix { lhs, op, rhs, .. } => {
+                let l = self.expr(lhs);
+                let r = self.expr(rhs);
+                format!("(I {} {} {} {})", sp, l, Self::sp(op.span), r)
+            }
+            Expr::Projection(inner, _, _) => {
+                let i = self.expr(inner);
+                format!("(P {} {})", sp, i)
+            }
+            Expr::Lambda(l) => {
+                let mut a = String::new();
+                for arg in &*l.args {
+                    let i = self.id(&arg.name.value.name);
+                    a.push_str(&format!("({} {})", Self::sp(arg.name.span), i));
+                }
+                let b = self.expr(l.body);
+                format!("(F {} ({}) {})", sp, a, b)
+            }
+            Expr::LetBindings(bs, body) => {
+                let rec = bs.is_recursive();
+                let mut s = String::new();
+                for b in bs.iter() {
+                    if b.typ.is_some() {
+                        return self.fail("type-annotation");
+                    }
+                    let p = self.pat(&b.name);
+                    let mut a = String::new();
+                    for arg in &*b.args {
+                        let i = self.id(&arg.name.value.name);
+                        a.push_str(&format!("({} {})", Self::sp(arg.name.span), i));
+                    }
+                    let x = self.expr(&b.expr);
+                    s.push_str(&format!("({} ({}) {})", p, a, x));
+                }
+                let body = self.expr(body);
+                format!("(B {} {} ({}) {})", sp, rec as u8, s, body)
+            }
+            Expr::Record {
+                types, exprs, base, ..
+            } => {
+                if !types.is_empty() {
+                    return self.fail("record-type-field");
+                }
+                let mut f = String::new();
+                for field in &**exprs {
+                    match &field.value {
+                        None => f.push_str(&format!("({})", Self::sp(field.name.span))),
+                        Some(v) => {
+                            let v = self.expr(v);
+                            f.push_str(&format!("({} {})", Self::sp(field.name.span), v))
+                        }
+                    }
+                }
+                match base {
+                    None => format!("(R {} ({}))", sp, f),
+                    Some(b) => {
+                        let b = self.expr(b);
+                        format!("(R {} ({}) {})", sp, f, b)
+                    }
+                }
+            }
+            Expr::TypeBindings(..) => self.fail("type-binding"),
+            Expr::Do(..) => self.fail("do"),
+            Expr::MacroExpansion { .. } => self.fail("macro-expansion"),
+            Expr::Annotated(..) => self.fail("annotated"),
+        }
+    }
+}
+
+// ---------------------------------------------------------------------------------------------
+// Rendering of the real results
+// ---------------------------------------------------------------------------------------------
+
+fn render_match(m: &completion::Match<'_, '_>) -> String {
+    let (k, s) = match m {
+        completion::Match::Expr(e) => (
+            match e.value {
+                Expr::Projection(..) => "ep",
+                Expr::Record { .. } => "er",
+                _ => "e",
+            },
+            e.span,
+        ),
+        completion::Match::Pattern(p) => ("p", p.span),
+        completion::Match::Ident(s, _, _) => ("i", *s),
+        completion::Match::Type(s, _, _) => ("t", *s),
+    };
+    format!("({} {} {})", k, s.start().0, s.end().0)
+}
+
+/// The part of lib.rs:1319-1457 that is outside the model (field access, record-field filter).
+fn suggest_skipped(found: &completion::Found<'_, '_>) -> bool {
+    let last = found.enclosing_matches.last();
+    let last_record = matches!(last, Some(completion::Match::Expr(e)) if matches!(e.value, Expr::Record { .. }));
+    let last_proj = matches!(last, Some(completion::Match::Expr(e)) if matches!(e.value, Expr::Projection(..)));
+    let last_pattern = matches!(last, Some(completion::Match::Pattern(_)));
+    if last_record {
+        return true;
+    }
+    matches!(found.match_, Some(completion::Match::Ident(..))) && !last_pattern && last_proj
+}
+
+fn msg_class(msg: &str) -> &'static str {
+    if msg.contains("Option::unwrap()") {
+        "unwrap-none"
+    } else if msg.contains("not implemented") {
+        "unimplemented"
+    } else if msg.contains("unreachable") {
+        "unreachable"
+    } else if msg.contains("ICE") {
+        "ice"
+    } else if msg.contains("index out of bounds") || msg.contains("out of range") {
+        "index"
+    } else if msg.contains("overflow") {
+        "overflow"
+    } else {
+        "other"
+    }
+}
+
+struct Ctx<'a> {
+    out: &'a mut Out,
+    verbose: bool,
+}
+
+/// Run everything for one program text.
+fn run_variant(cx: &mut Ctx, origin: &str, vname: &str, src: &str) {
+    let out = &mut *cx.out;
+    if std::env::var("C20_TRACE").is_ok() {
+        eprintln!("TRACE {} {} {:?}", origin, vname, src);
+    }
+    out.count("variants");
+    let kind = vname.trim_end_matches(|c: char| c.is_ascii_digit() || c == '+' || c == 'w' || c == 's');
+    out.count(&format!("variant:{}", kind));
+    let checked = match gv::catch(|| front::check(src)) {
+        Ok(Some(c)) => c,
+        Ok(None) => {
+            out.count("front:no-ast");
+            return;
+        }
+        Err(_) => {
+            // a panic of parser/renamer/typechecker is C09's business
+            out.count("front:panic(skipped; belongs to C09)");
+            return;
+        }
+    };
+    if checked.parse_errors {
+        out.count("front:parse-errors(partial ast)");
+    }
+    if checked.type_errors {
+        out.count("front:type-errors");
+    }
+    if checked.infix_errors {
+        out.count("front:infix-errors");
+    }
+    let clean = !checked.parse_errors && !checked.type_errors && !checked.infix_errors;
+    let expr = checked.expr.expr();
+    let env = &checked.env;
+    let len = src.len() as u32;
+    let span = Span::new(BytePos::from(1), BytePos::from(1 + len));
+
+    // independent reading of the AST
+    let mut w = info::Walker {
+        src,
+        info: Default::default(),
+    };
+    w.expr(expr);
+    let all_tokens = w.tokens_in(1, len + 1);
+    let inf = w.info;
+    let mut constructs = inf.constructs.clone();
+    constructs.sort();
+    constructs.dedup();
+    for c in &constructs {
+        out.count(&format!("construct:{}", c));
+    }
+
+    // the model's view
+    let mut d = Dump {
+        src_span: span,
+        ids: HashMap::new(),
+        names: vec![],
+        out: None,
+        nodes: 0,
+    };
+    let tree = d.expr(expr);
+    let in_fragment = d.out.is_none();
+    if let Some(why) = d.out {
+        out.count(&format!("outside-fragment:{}", why));
+    }
+
+    let replay = |pos: u32, query: &str| serde_json::json!({"src": src, "pos": pos, "query": query, "origin": origin, "variant": vname});
+    let panic_fp = |msg: &str, loc: &str, pos: u32, query: &str| -> (String, String) {
+        let class = msg_class(msg);
+        let in_zone = inf
+            .empty_tuple_pattern_zones
+            .iter()
+            .any(|(a, b)| *a <= pos && pos <= b + 1);
+        let fp = if class == "unwrap-none" && in_zone && loc.contains("completion") {
+            // every position-search based query fails the same way here
+            "panic:completion:empty-tuple-pattern".to_string()
+        } else if class == "unimplemented" && inf.annotated > 0 {
+            format!("panic:completion:{}:annotated-expr", query)
+        } else {
+            format!("panic:completion:{}:{}", query, class)
+        };
+        (fp, format!("{} panicked at offset {}: {} ({})", query, pos, msg, loc))
+    };
+
+    // all_symbols: once per variant
+    if let Err(msg) = gv::catch(|| completion::all_symbols(span, expr).len()) {
+        let (fp, what) = panic_fp(&msg, &last_loc(), 0, "all_symbols");
+        out.oracle_fail(&fp, &what, replay(0, "all_symbols"));
+    }
+
+    let mut payload = String::from("(");
+    let mut classes: Vec<String> = vec![];
+    for off in 0..=(len + 2) {
+        let pos = BytePos::from(off);
+        out.count("offsets");
+        // ---- position search + suggestions without prefix filter: correspondence payload
+        let r = gv::catch(|| {
+            let found = completion::complete(span, expr, pos);
+            let q = completion::SuggestionQuery {
+                prefix_filter: false,
+                ..completion::SuggestionQuery::default()
+            };
+            let mut names: Vec<String> = q
+                .suggest(env, span, expr, pos)
+                .into_iter()
+                .map(|s| s.name)
+                .collect();
+            names.sort();
+            let sugg = |names: &[String]| {
+                let mut s = String::from("(S");
+                for n in names {
+                    s.push(' ');
+                    s.push_str(&quote(n));
+                }
+                s.push(')');
+                s
+            };
+            match found {
+                Err(()) => (format!("(N {})", sugg(&names)), "N".to_string(), names),
+                Ok(f) => {
+                    let fs = match &f.match_ {
+                        None => "E".to_string(),
+                        Some(m) => format!("(F {})", render_match(m)),
+                    };
+                    let ms = |v: &[completion::Match<'_, '_>]| {
+                        format!("({})", v.iter().map(render_match).collect::<Vec<_>>().join(" "))
+                    };
+                    let s = if suggest_skipped(&f) {
+                        "skip".to_string()
+                    } else {
+                        sugg(&names)
+                    };
+                    let class = match &f.match_ {
+                        None => "E".to_string(),
+                        Some(m) => format!("F{}", render_match(m)[1..3].trim()),
+                    };
+                    (
+                        format!("({} {} {} {})", fs, ms(&f.enclosing_matches), ms(&f.near_matches), s),
+                        class,
+                        names,
+                    )
+                }
+            }
+        });
+        if off > 0 {
+            payload.push(' ');
+        }
+        let names_nofilter = match r {
+            Ok((p, class, names)) => {
+                payload.push_str(&p);
+                classes.push(class);
+                Some(names)
+            }
+            Err(msg) => {
+                payload.push_str("panic");
+                classes.push("panic".into());
+                let (fp, what) = panic_fp(&msg, &last_loc(), off, "complete");
+                out.oracle_fail(&fp, &what, replay(off, "complete"));
+                out.count("panic-offsets");
+                None
             }
         };
-        println!(
-            "parse_err={} infix_err={} type_err={}",
-            c.parse_errors, c.infix_errors, c.type_errors
+
+        // ---- totality of the other queries
+        macro_rules! total {
+            ($name:expr, $body:expr) => {
+                match gv::catch(|| $body) {
+                    Ok(v) => Some(v),
+                    Err(msg) => {
+                        let (fp, what) = panic_fp(&msg, &last_loc(), off, $name);
+                        out.oracle_fail(&fp, &what, replay(off, $name));
+                        None
+                    }
+                }
+            };
+        }
+        let found_type = total!(
+            "find",
+            completion::find(env, span, expr, pos).map(|t| match t {
+                Either::Left(k) => (false, k.to_string()),
+                Either::Right(t) => (true, t.to_string()),
+            })
         );
-        let expr = c.expr.expr();
-        println!("{:#?}", expr);
-        let span = Span::new(BytePos::from(1), BytePos::from(1 + src.len() as u32));
-        for off in 0..=(src.len() as u32 + 2) {
-            let pos = BytePos::from(off);
-            let f = gv::catch(|| {
-                gluon_completion::completion(
-                    (gluon_completion::SpanAt, gluon_completion::TypeAt { env: &c.env }),
-                    span,
-                    expr,
-                    pos,
-                )
-                .map(|(s, t)| format!("{}..{} {}", s.start().0, s.end().0, t))
-            });
-            let s = gv::catch(|| {
-                let mut v: Vec<String> = gluon_completion::suggest(&c.env, span, expr, pos)
-                    .into_iter()
-                    .map(|s| s.name)
-                    .collect();
-                v.sort();
-                v
-            });
-            let sh = gv::catch(|| {
-                gluon_completion::signature_help(&c.env, span, expr, pos)
-                    .map(|s| format!("{} {:?}", s.name, s.index))
-            });
-            println!("{:3} find={:?} suggest={:?} sig={:?}", off, f, s, sh);
+        let sugg_default = total!("suggest", {
+            completion::suggest(env, span, expr, pos)
+                .into_iter()
+                .map(|s| s.name)
+                .collect::<Vec<String>>()
+        });
+        total!(
+            "signature_help",
+            completion::signature_help(env, span, expr, pos).map(|s| s.index)
+        );
+        total!(
+            "get_metadata",
+            completion::get_metadata(&checked.metadata, span, expr, pos).is_some()
+        );
+        total!(
+            "suggest_metadata",
+            completion::suggest_metadata(&checked.metadata, env, span, expr, pos, "x").is_some()
+        );
+        total!(
+            "find_all_symbols",
+            completion::find_all_symbols(span, expr, pos).map(|r| r.1.len())
+        );
+        total!(
+            "symbol",
+            completion::symbol(span, expr, pos).map(|s| s.declared_name().len())
+        );
+
+        // ---- the type reported at an identifier is the type the checker stored for it
+        let covering: Vec<&(u32, u32, String, &'static str)> = inf
+            .idents
+            .iter()
+            .filter(|(a, b, _, _)| *a <= off && off <= *b)
+            .collect();
+        if covering.len() == 1 {
+            let (a, b, typ, what) = covering[0];
+            out.count("ident-offsets");
+            match &found_type {
+                Some(Ok((true, t))) => {
+                    if t != typ {
+                        out.oracle_fail(
+                            &format!("type-at-ident:mismatch:{}", what),
+                            &format!(
+                                "find at offset {} (identifier {}..{}) reports `{}`, the typed AST has `{}`",
+                                off, a, b, t, typ
+                            ),
+                            replay(off, "find"),
+                        );
+                    } else {
+                        out.count("ident-offsets:type-agrees");
+                    }
+                }
+                Some(Ok((false, k))) => out.oracle_fail(
+                    &format!("type-at-ident:kind-instead-of-type:{}", what),
+                    &format!(
+                        "find at offset {} (identifier {}..{}) reports the kind `{}`",
+                        off, a, b, k
+                    ),
+                    replay(off, "find"),
+                ),
+                Some(Err(())) => {
+                    out.count("ident-offsets:nothing-reported");
+                    if clean && in_fragment {
+                        out.oracle_fail(
+                            &format!("type-at-ident:nothing-reported:{}", what),
+                            &format!(
+                                "find at offset {} reports nothing although an identifier ({}..{}) of an error-free program is there",
+                                off, a, b
+                            ),
+                            replay(off, "find"),
+                        );
+                    }
+                }
+                None => {}
+            }
+        }
+
+        // ---- every suggested name is in scope at the offset
+        let field_ctx = inf.field_ctx.iter().any(|(a, b)| *a <= off && off <= *b);
+        for (which, names) in [("suggest", &sugg_default), ("suggest-nofilter", &names_nofilter)] {
+            if let Some(names) = names {
+                for n in names.iter() {
+                    out.count("suggestions");
+                    let ok = inf.in_scope(n, off) || (field_ctx && all_tokens.iter().any(|t| t == n));
+                    if !ok {
+                        let class = inf.leak_class(n, off);
+                        out.oracle_fail(
+                            &format!("suggest-out-of-scope:{}", class),
+                            &format!(
+                                "{} at offset {} returns `{}` which is not in scope there ({})",
+                                which, off, n, class
+                            ),
+                            replay(off, which),
+                        );
+                        out.count(&format!("out-of-scope:{}", class));
+                        break;
+                    }
+                }
+            }
         }
     }
+    payload.push(')');
+
+    if in_fragment {
+        let mut req = format!("find {} (names", len);
+        for n in &d.names {
+            req.push(' ');
+            req.push_str(&quote(n));
+        }
+        req.push_str(") ");
+        req.push_str(&tree);
+        out.case(&req, &payload);
+        out.add("correspondence-offsets", (len + 3) as u64);
+        classes.sort();
+        classes.dedup();
+        // non-trivial: at least 3 nodes and at least 2 different outcomes over the offsets
+        if d.nodes >= 3 && classes.len() >= 2 {
+            out.class(format!("{:?}/{:?}/{}", constructs, classes, kind));
+        }
+        if out.n_cases % 211 == 3 {
+            out.sample(serde_json::json!({"src": src, "variant": vname, "tree": tree}));
+        }
+    } else {
+        out.count("oracle-only-variants");
+    }
+    if cx.verbose {
+        println!("src: {:?}\ntree: {}\nimpl: {}", src, tree, payload);
+    }
+}
+
+const CORPUS: &[&str] = &[
+    // D10 (fixed): empty array as an argument
+    "f []",
+    "[]",
+    "let x = f [] in x",
+    // D12: unit pattern
+    "let () = () in 1",
+    "match () with\n| () -> 1",
+    "\\x -> match x with\n    | (a, ()) -> a",
+    // positions between tokens / end of input
+    "let x = 1 in  x   ",
+    "f (\\x -> x)  y",
+    "(let x = 1 in x)  y",
+    "let f x y = x #Int+ y in f 1 2",
+    "rec let f x = f x in f 1",
+    "let r = { x = 1, y = 2 } in r.x",
+    "let r = { x = 1, y = 2 } in { x = 3, .. r }",
+    "match (1, 2) with\n| (a, b) -> a\n| z @ (c, d) -> c",
+    "if True then 1 else 2",
+    "1 #Int+ 2 #Int* 3",
+    "let id : forall a . a -> a = \\x -> x in id 1",
+    "type T = | A Int | B in\nmatch A 1 with\n| A x -> x\n| B -> 0",
+    "let { x, y = z } = { x = 1, y = 2 } in z",
+    "do x = f\ng x",
+    "()",
+    "",
+    " ",
+    "let",
+    "let x =",
+    "\\",
+    "f (",
+    "{ x = }",
+    "x.",
+    "match x with |",
+];
+
+fn main() {
+    let args = Args::parse();
+    if std::env::var("C20_LOUD").is_err() {
+        install_hook();
+    }
+    if let Some(r) = &args.replay {
+        let v: serde_json::Value =
+            serde_json::from_str(&std::fs::read_to_string(r).unwrap()).unwrap();
+        let case = v
+            .get("case")
+            .cloned()
+            .unwrap_or(v.get("replay").cloned().unwrap_or(v.clone()));
+        let src = case["src"].as_str().unwrap().to_string();
+        let mut out = Out::new(&args.out);
+        let mut cx = Ctx {
+            out: &mut out,
+            verbose: true,
+        };
+        run_variant(&mut cx, "replay", "replay", &src);
+        println!(
+            "replayed {:?} (asked offset {}): {} oracle failures",
+            src, case["pos"], out.n_oracle_fail
+        );
+        out.finish();
+        return;
+    }
+    if args.extra.len() >= 2 && args.extra[0] == "--probe" {
+        let mut out = Out::new(&args.out);
+        let mut cx = Ctx {
+            out: &mut out,
+            verbose: true,
+        };
+        run_variant(&mut cx, "probe", "probe", &args.extra[1]);
+        out.finish();
+        let o = std::fs::read_to_string(args.out.join("oracle.jsonl")).unwrap();
+        print!("{}", o);
+        return;
+    }
+    let mut out = Out::new(&args.out);
+    let mut rng = gv::rng::Rng::new(args.seed, 20);
+    let mut cx = Ctx {
+        out: &mut out,
+        verbose: false,
+    };
+
+    // corpus first
+    for (i, src) in CORPUS.iter().enumerate() {
+        run_variant(&mut cx, &format!("corpus{}", i), "complete", src);
+    }
+    if let Ok(rd) = std::fs::read_dir("corpus/C20") {
+        let mut files: Vec<_> = rd.filter_map(|e| e.ok()).map(|e| e.path()).collect();
+        files.sort();
+        for f in files {
+            if let Ok(s) = std::fs::read_to_string(&f) {
+                run_variant(&mut cx, &format!("{}", f.display()), "complete", &s);
+            }
+        }
+    }
+
+    let n_prog = if args.thorough() { 1500 } else { 90 };
+    for i in 0..n_prog {
+        let depth = 2 + rng.below(3) as u32;
+        // 3 of 4 programs stay inside the modelled fragment
+        let extended = rng.chance(1, 4);
+        let p = gen::program(&mut rng, depth, extended);
+        if p.text().len() > 260 {
+            cx.out.count("generated:too-long(skipped)");
+            continue;
+        }
+        cx.out.count("generated-programs");
+        for (vname, text) in gen::variants(&p) {
+            run_variant(&mut cx, &format!("gen{}", i), &vname, &text);
+        }
+    }
+    out.finish();
 }
